@@ -552,6 +552,76 @@ pub fn predict(w: &World, forest: &[A], op: &Op) -> Option<Prediction> {
             m.forest.push(A::doc(vec![]));
             done(m)
         }
+        AppendPi(p) => {
+            let pn = get(p)?;
+            if !container(pn.k) {
+                return None;
+            }
+            node_mut(&mut m.forest, pn.id)?.ch.push(A::pi("npi", Some("d")));
+            done(m)
+        }
+        AppendNamespace(e, p, u) => {
+            let en = get(e)?;
+            if en.k != K::Elem {
+                return None;
+            }
+            let (pf, uri) = (PREFIXES[*p as usize], URIS[*u as usize]);
+            let em = node_mut(&mut m.forest, en.id)?;
+            match em.nss.iter_mut().find(|x| x.name == pf) {
+                // an existing declaration of the prefix keeps its node and position and takes the new URI
+                Some(x) => x.ns = uri.to_string(),
+                None => em.nss.push(A::ns_node(pf, uri)),
+            }
+            done(m)
+        }
+        NewDocumentWithElement(e) => {
+            let en = get(e)?;
+            if en.k != K::Elem {
+                return None;
+            }
+            let (node, old) = unlink(&mut m.forest, en.id)?;
+            if let Some((op_, _)) = old {
+                m.normalise(op_, None);
+            }
+            m.forest.push(A::doc(vec![node]));
+            done(m)
+        }
+        ElementMutSetName(e) => {
+            let en = get(e)?;
+            if en.k != K::Elem {
+                return None;
+            }
+            let em = node_mut(&mut m.forest, en.id)?;
+            em.ns = crate::nsscope::X.to_string();
+            em.name = "z".to_string();
+            done(m)
+        }
+        NsNodeSetNamespace(n, u) => {
+            let nn = get(n)?;
+            if nn.k != K::Ns {
+                return None;
+            }
+            let idn = nn.id;
+            fn set(a: &mut A, id: u32, u: &str) -> bool {
+                if a.id == id {
+                    a.ns = u.to_string();
+                    return true;
+                }
+                a.nss.iter_mut().any(|x| set(x, id, u)) || a.ch.iter_mut().any(|x| set(x, id, u))
+            }
+            if !m.forest.iter_mut().any(|t| set(t, idn, URIS[*u as usize])) {
+                return None;
+            }
+            done(m)
+        }
+        SetPiTarget(n) => {
+            let nn = get(n)?;
+            if nn.k != K::Pi {
+                return None;
+            }
+            node_mut(&mut m.forest, nn.id)?.name = "t2".to_string();
+            done(m)
+        }
         Parse(i) => {
             m.forest.push(parse_expect(*i));
             done(m)
